@@ -162,7 +162,8 @@ pub fn scrambled_header(spec: &ImgSpec, rng: &mut Rng) -> Vec<u8> {
 		}
 	}
 	// the fields every model reads, wherever the overlaps put them
-	for (a, z) in [(0usize, 2usize), (60, 64), (nt, nt + 8), (nt + 20, nt + 22), (o, o + 2), (o + 56, o + 68)] {
+	// (Machine at nt + 4 is a don't-care field: only the signature and NumberOfSections are put back)
+	for (a, z) in [(0usize, 2usize), (60, 64), (nt, nt + 4), (nt + 6, nt + 8), (nt + 20, nt + 22), (o, o + 2), (o + 56, o + 68)] {
 		let z = z.min(b.len());
 		if a < z { b[a..z].copy_from_slice(&fresh[a..z]); }
 	}
